@@ -353,6 +353,9 @@ func Parse(block []rune, pos int) (pt ParsedTokens, syntaxHighlighted string) {
 				pt.Unsafe = isCmdUnsafe(pt.FuncName) || pt.Unsafe
 				ansiReset(block[i])
 			default:
+				// `:type command` is a cast: the command is the word after it, which
+				// this tokenizer does not follow. Never preview such a line.
+				pt.Unsafe = true
 				syntaxHighlighted += string(block[i])
 			}
 
@@ -567,6 +570,9 @@ func Parse(block []rune, pos int) (pt ParsedTokens, syntaxHighlighted string) {
 				endFunc()
 				pt.LastFuncName = pt.FuncName
 				pt.Parameters = make([]string, 0)
+				// in a statement the block parser reads `?:` as the `?` pipe followed
+				// by a `:type` cast, not as one operator. Never preview such a line.
+				pt.Unsafe = true
 				ansiChar(hlPipe, block[i:i+2]...)
 				ansiStartFunction()
 				i++
